@@ -245,6 +245,18 @@ def corpus():
         inst = dict({"n": "x1", "of": R, "conns": good + [["no_such_port", {"k": "sig", "n": "zz"}]]}, **extra)
         extras.append({"class": "extra_connection", "site": f"corpus:last-on-{kindkey}",
                        "design": {"bundles": [_gd.DIFF] if kindkey == "pair" else [], "modules": [{"name": "Top", "sigs": sigs, "bundles": bundles, "insts": [inst]}], "top": "Top"}})
+    # an extra connection called what a member of a bundle-valued port is called once flattened (`bp_x`), next to the connection of that port:
+    # on an instance array the first ConnTypes pass does not look, and the re-connection of the flattened port must not overwrite it unnoticed
+    bx = {"name": "BX", "tree": {"sigs": [lf("x", 1)], "subs": []}}
+    hasbx = {"name": "HasBX", "sigs": [], "bundles": [{"n": "bp", "of": "BX", "port": True}],
+             "insts": [{"n": "r", "of": copy.deepcopy(_gd.LEAVES[3]), "conns": [["p", {"k": "bref", "root": "bp", "path": ["x"]}], ["n", {"k": "bref", "root": "bp", "path": ["x"]}]]}]}
+    for kindkey, extra in (("array", {"array": 2}), ("plain", {})):
+        for first in (True, False):
+            cs = [["bp", {"k": "bundle", "n": "ob"}], ["bp_x", {"k": "sig", "n": "zz"}]]
+            inst = dict({"n": "x1", "of": {"k": "module", "name": "HasBX"}, "conns": cs if first else cs[::-1]}, **extra)
+            extras.append({"class": "extra_connection", "site": f"corpus:named-like-a-flattened-member-on-{kindkey}-{'after' if first else 'before'}",
+                           "design": {"bundles": [bx], "modules": [copy.deepcopy(hasbx), {"name": "Top", "sigs": [{"n": "zz", "w": 1, "port": False, "dir": "none"}],
+                                      "bundles": [{"n": "ob", "of": "BX", "port": False}], "insts": [inst]}], "top": "Top"}})
     # an empty range hidden in a concatenation whose other part makes the total come out at the port's width: reversed bounds
     # (a width formula without `max(0, …)` makes them -1, -2, -3 wide) and equal bounds (0 wide)
     hidden = []
